@@ -21,6 +21,7 @@ pub mod mstsc {
 }
 
 mod c19;
+mod c20;
 
 fn usage() -> ! {
     eprintln!("usage: guicheck <C19|C20> [--tier quick|thorough] | guicheck replay <file>");
@@ -32,6 +33,11 @@ fn run(id: &str, tier: Tier, replay: Option<(String, serde_json::Value)>) -> i32
         "C19" => {
             let rep = Report::with_replay("C19", tier, c19::LEVEL, c19::RULE, replay);
             c19::check(&rep);
+            rep.finish()
+        }
+        "C20" => {
+            let rep = Report::with_replay("C20", tier, c20::LEVEL, c20::RULE, replay);
+            c20::check(&rep);
             rep.finish()
         }
         _ => {
